@@ -66,6 +66,9 @@ func genScript(t *rapid.T, maxSessions, maxProducts int) Script {
 		se.NoFill = oneIn(t, 6, l+".noFill")
 		se.SetupFillFail = oneIn(t, 6, l+".setupFillFail")
 		se.SetupCtorFail = oneIn(t, 6, l+".setupCtorFail")
+		if se.SetupCtorFail && rapid.Bool().Draw(t, l+".setupBeside") {
+			se.SetupBeside = besideValue
+		}
 		np := rapid.IntRange(1, maxProducts).Draw(t, l+".products")
 		for j := 0; j < np; j++ {
 			pl := fmt.Sprintf("%s.p%d", l, j)
@@ -77,6 +80,10 @@ func genScript(t *rapid.T, maxSessions, maxProducts int) Script {
 				p.CtorFail = true
 			case 9:
 				p.FacFail = true
+			}
+			if p.CtorFail || p.FacFail {
+				// what comes back beside the error: nothing, a non-nil first result, a typed nil
+				p.Beside = rapid.SampledFrom(besides).Draw(t, pl+".beside")
 			}
 			p.Mutate = rapid.IntRange(0, 2).Draw(t, pl+".mutate") == 2
 			se.Products = append(se.Products, p)
@@ -97,6 +104,13 @@ func classify(o *vf.Obs, st *stats) {
 	o.ClassIf(st.mutations > 0, "config_mutated_by_product")
 	o.ClassIf(st.independenceChecks > 0, "independence_checked")
 	o.ClassIf(st.sameTypeNoWrap > 0, "same_type_no_wrap")
+	o.ClassIf(st.besideValueNew > 0, "error_beside_nonnil_result_component_form")
+	o.ClassIf(st.besideValueFactory > 0, "error_beside_nonnil_result_factory_form")
+	o.ClassIf(st.besideTypedNilNew > 0, "error_beside_typed_nil_component_form")
+	o.ClassIf(st.besideTypedNilFactory > 0, "error_beside_typed_nil_factory_form")
+	o.ClassIf(st.besideFactoryAtSetup > 0, "error_beside_nonnil_factory_at_newfactory")
+	o.ClassIf(st.namedFactoryMade > 0, "named_factory_type")
+	o.ClassIf(st.namedSameSignature > 0, "named_factory_type_same_signature")
 	if st.multiProductFactories > 0 || st.errResult > 0 || st.errPanic > 0 {
 		o.NonTrivial()
 	}
@@ -108,7 +122,7 @@ func unknownName(reg *plugin.Registry) error {
 	if o.panicked || o.err == nil {
 		return fmt.Errorf("New with an unregistered name: panicked=%v (%v) err=%v, expected an error result", o.panicked, o.panicVal, o.err)
 	}
-	for _, ft := range []reflect.Type{facErrType, facNoErrType} {
+	for _, ft := range []reflect.Type{facErrType, facNoErrType, namedFacErrType, namedFacNoErrType} {
 		o = guarded(func() (any, error) { return reg.NewFactory(ft, "c18-no-such-name") })
 		if o.panicked || o.err == nil {
 			return fmt.Errorf("NewFactory(%s) with an unregistered name: panicked=%v (%v) err=%v, expected an error result", ft, o.panicked, o.panicVal, o.err)
@@ -120,7 +134,8 @@ func unknownName(reg *plugin.Registry) error {
 // ---------- TestShapes: one random script driven through the COMPLETE shape x form cross product ----------
 
 type ShapesCase struct {
-	// Only >= 0 restricts the run to one combination (index = shape*3 + form) — for hand-minimising a replay.
+	// Only >= 0 restricts the run to one combination — for hand-minimising a replay. index = shape*3 + form for the
+	// forms new / factory_err / factory_noerr, 324 + shape*2 + {0: named_factory_err, 1: named_factory_noerr}.
 	Only   int    `json:"only"`
 	Script Script `json:"script"`
 }
@@ -130,6 +145,9 @@ func genShapesCase(t *rapid.T) ShapesCase {
 }
 
 func checkShapes(c ShapesCase, o *vf.Obs) (enumerated int, err error) {
+	if err := c.Script.validate(); err != nil {
+		return 0, err
+	}
 	shapes := allShapes()
 	reg := plugin.NewRegistry()
 	worlds := make([]*world, len(shapes))
@@ -142,7 +160,10 @@ func checkShapes(c ShapesCase, o *vf.Obs) (enumerated int, err error) {
 	st := &stats{}
 	for i, w := range worlds {
 		for fi, form := range forms {
-			idx := i*len(forms) + fi
+			idx := i*unnamedForms + fi
+			if fi >= unnamedForms {
+				idx = len(shapes)*unnamedForms + i*(len(forms)-unnamedForms) + fi - unnamedForms
+			}
 			if c.Only >= 0 && c.Only != idx {
 				continue
 			}
@@ -189,8 +210,10 @@ func TestShapes(t *testing.T) {
 // ---------- TestSequences: one random combination, longer random call sequences ----------
 
 type SeqCase struct {
-	Shape       Shape   `json:"shape"`
-	Form        string  `json:"form"`
+	Shape Shape  `json:"shape"`
+	Form  string `json:"form"` // new | factory_err | factory_noerr
+	// Named: the factory is requested as the DEFINED func type of that signature (CompFactory / CompFactoryNoErr)
+	Named       bool    `json:"named,omitempty"`
 	Distractors []Shape `json:"distractors"` // other registrations living in the same registry
 	Script      Script  `json:"script"`
 }
@@ -216,6 +239,9 @@ func genShape(t *rapid.T, label string) Shape {
 func genSeqCase(t *rapid.T) SeqCase {
 	c := SeqCase{Shape: genShape(t, "shape")}
 	c.Form = rapid.SampledFrom([]string{"new", "factory_err", "factory_err", "factory_noerr", "factory_noerr"}).Draw(t, "form")
+	if c.Form != "new" {
+		c.Named = oneIn(t, 6, "named")
+	}
 	nd := rapid.IntRange(0, 2).Draw(t, "distractors")
 	for i := 0; i < nd; i++ {
 		c.Distractors = append(c.Distractors, genShape(t, fmt.Sprintf("distractor%d", i)))
@@ -229,11 +255,18 @@ func checkSeq(c SeqCase, o *vf.Obs) error {
 		return fmt.Errorf("harness: not a supported shape: %+v", c.Shape)
 	}
 	okForm := false
-	for _, f := range forms {
+	for _, f := range forms[:unnamedForms] {
 		okForm = okForm || f == c.Form
 	}
-	if !okForm {
-		return fmt.Errorf("harness: unknown form %q", c.Form)
+	if !okForm || (c.Named && c.Form == "new") {
+		return fmt.Errorf("harness: unknown form %q (named %v)", c.Form, c.Named)
+	}
+	form := c.Form
+	if c.Named {
+		form = "named_" + form
+	}
+	if err := c.Script.validate(); err != nil {
+		return err
 	}
 	reg := plugin.NewRegistry()
 	var others []*world
@@ -252,9 +285,9 @@ func checkSeq(c SeqCase, o *vf.Obs) error {
 		return err
 	}
 	st := &stats{}
-	r := &runner{reg: reg, w: w, form: c.Form, st: st}
+	r := &runner{reg: reg, w: w, form: form, st: st}
 	if err := r.run(c.Script); err != nil {
-		return fmt.Errorf("constructor %s (%s) requested as %s: %w", w.shape, w.shape.ctorType(), c.Form, err)
+		return fmt.Errorf("constructor %s (%s) requested as %s: %w", w.shape, w.shape.ctorType(), form, err)
 	}
 	for _, dw := range others {
 		if len(dw.ctors)+len(dw.fills)+dw.defCalls != 0 {
